@@ -277,6 +277,7 @@ func c16Sim(r *simcore.Run) {
 	serial := int64(10)
 	var mustHave ksEntry
 	positionalKids := s.Draw(3, "positional-kids") == 2
+	caseTwins := s.Draw(5, "key-ids-differing-in-case-only") == 4
 	genVersion := func() ksVersion {
 		n := 1 + s.Draw(3, "n-entries")
 		var es []ksEntry
@@ -315,6 +316,19 @@ func c16Sim(r *simcore.Run) {
 				es = append(es, ksEntry{key: mustHave.key, kid: mustHave.kid, serial: serial})
 			}
 		}
+		if caseTwins && !positionalKids {
+			// key ids are case-sensitive: an earlier entry carries the configured id in other letters
+			if mustHave.key == "" && len(es) >= 2 {
+				es[0].kid, es[len(es)-1].kid = "KEY-A", "key-a"
+			} else if mustHave.key != "" {
+				for i := range es {
+					if es[i].key != mustHave.key {
+						es[i].kid = "KEY-A"
+						break
+					}
+				}
+			}
+		}
 		return buildVersion(es)
 	}
 	initial := genVersion()
@@ -327,7 +341,7 @@ func c16Sim(r *simcore.Run) {
 		if s.Draw(2, "configured-key-id") == 1 {
 			useKeyID = "pos-0" // present in every version
 		}
-	} else if initial.entries[len(initial.entries)-1].kid != "" && s.Draw(3, "configured-key-id") == 2 {
+	} else if last := initial.entries[len(initial.entries)-1].kid; last != "" && (s.Draw(3, "configured-key-id") == 2 || (caseTwins && last == "key-a")) {
 		useKeyID = initial.entries[len(initial.entries)-1].kid
 		mustHave = initial.entries[len(initial.entries)-1]
 	}
@@ -725,6 +739,8 @@ func c16Sim(r *simcore.Run) {
 				nbf, _ := claims["nbf"].(float64)
 				exp, _ := claims["exp"].(float64)
 				switch {
+				case useKeyID != "" && op.kind == "sign" && hdr.KeyID != useKeyID:
+					r.Fail("active-key-is-not-the-configured-one", "key_id", "the token names key %q, the signer is configured with key_id %q", hdr.KeyID, useKeyID)
 				case claims["sub"] != op.sub:
 					r.Fail("system-claim-overridden", "sub", "sub=%v, authenticated subject is %q", claims["sub"], op.sub)
 				case claims["iss"] != "sim-issuer":
